@@ -30,6 +30,7 @@ CLASSES = [
      "ops": [], "expensive": True, "witnesses": 12},
     {"id": "C02-containerd-bbolt-corrupt-db", "extractors": ["containers/containerd"], "outcomes": ["Panic"], "stack": r"go\.etcd\.io/bbolt",
      "ops": [], "expensive": False},
+    {"id": "C02-dotnetpe-saferwall-alloc", "extractors": ["dotnet/pe"], "outcomes": ["OOM"], "stack": None, "ops": [], "expensive": False},
     {"id": "C02-rpm-rpmdb-panic", "extractors": ["os/rpm"], "outcomes": ["Panic"], "stack": r"go-rpmdb/pkg\.",
      "ops": [], "expensive": False},
 ]
